@@ -88,19 +88,21 @@ class Optimizer(Identifiable, Runnable):
             n_iter = state["n_iter"]
             print(f"{n_iter:>4} {loss:.5f} evaluations: {func_evals}")
 
+            # the counter is advanced before the checkpoint is written so that a
+            # restarted run resumes with the next iteration
+            self._epoch += 1
+
             if (
                 self.checkpoint is not None
-                and self._epoch % self.checkpoint_frequency == 0
+                and (self._epoch - 1) % self.checkpoint_frequency == 0
             ):
                 if self.checkpoint_all:
                     checkpoint_file = self.checkpoint.replace(
-                        ".json", f"-{self._epoch}.json"
+                        ".json", f"-{self._epoch - 1}.json"
                     )
                     self.save_full_state(checkpoint_file, overwrite=True)
                 else:
                     self.save_full_state(self.checkpoint)
-
-            self._epoch += 1
 
     def _run(self) -> None:
         for logger in self.loggers:
@@ -168,19 +170,21 @@ class Optimizer(Identifiable, Runnable):
                 for p in self.parameters:
                     p.fire_parameter_changed()
 
+            # the counter is advanced before the checkpoint is written so that a
+            # restarted run resumes with the next iteration
+            self._epoch += 1
+
             if (
                 self.checkpoint is not None
-                and self._epoch % self.checkpoint_frequency == 0
+                and (self._epoch - 1) % self.checkpoint_frequency == 0
             ):
                 if self.checkpoint_all:
                     checkpoint_file = self.checkpoint.replace(
-                        ".json", f"-{self._epoch}.json"
+                        ".json", f"-{self._epoch - 1}.json"
                     )
                     self.save_full_state(checkpoint_file, overwrite=True)
                 else:
                     self.save_full_state(self.checkpoint)
-
-            self._epoch += 1
 
         for logger in self.loggers:
             logger.close()
@@ -198,8 +202,7 @@ class Optimizer(Identifiable, Runnable):
         return state
 
     def load_state_dict(self, state_dict: dict[str, Any]) -> None:
-        # the checkpoint is written at the end of an iteration: resume with the next one
-        self._epoch = state_dict["iteration"] + 1
+        self._epoch = state_dict["iteration"]
         # JSON turns the integer keys of the per-parameter state into strings
         optimizer_state = dict(state_dict["optimizer"])
         optimizer_state["state"] = {
